@@ -19,9 +19,9 @@ func c01Profiles() []GenOpts {
 		{MaxStmts: 30, MaxDepth: 2, Funcs: 2},
 		{MaxStmts: 40, MaxDepth: 3, Funcs: 3, Strings: true, SmallInts: true},
 		{MaxStmts: 40, MaxDepth: 3, Funcs: 3, Strings: true, Containers: true},
-		{MaxStmts: 50, MaxDepth: 3, Funcs: 4, Strings: true, Containers: true, Structs: true, SmallInts: true, FuncLits: true},
+		{MaxStmts: 50, MaxDepth: 3, Funcs: 4, Strings: true, Containers: true, Structs: true, SmallInts: true, FuncLits: true, Ifaces: true, NamedTypes: true},
 		{MaxStmts: 40, MaxDepth: 3, Funcs: 3, Choice: true, Strings: true, Structs: true, FuncLits: true, Containers: true},
-		{MaxStmts: 50, MaxDepth: 3, Funcs: 4, Strings: true, Containers: true, Structs: true, Panics: true},
+		{MaxStmts: 50, MaxDepth: 3, Funcs: 4, Strings: true, Containers: true, Structs: true, Panics: true, Ifaces: true, NamedTypes: true},
 	}
 }
 
